@@ -1,5 +1,5 @@
-(* C15 — HTTP: Invalidate removes every cached response on a matching path. Part 1 (this file, TrieProofs.v): the path index is a map normalized-path -> key -> identity for every operation sequence, exact and wildcard matching are segment-wise, equivalent spellings coincide, pruning leaves no empty branch. Part 2 (index vs cache under interleavings) is in the HttpIndexLts section below when present. Only `exact` + Print Assumptions. Part 2 (IndexLtsProofs.v): the index against the backing cache as an interleaving LTS (store = index step then cache step, removal notifications delivered asynchronously by identity, Invalidate = snapshot then deletes, Clear = two steps). *)
-Require Import KV.Base KV.HttpModel KV.HttpTrie KV.TrieProofs KV.IndexLts KV.IndexLtsProofs.
+(* C15 — HTTP: Invalidate removes every cached response on a matching path. Part 1 (this file, TrieProofs.v): the path index is a map normalized-path -> key -> identity for every operation sequence, exact and wildcard matching are segment-wise, equivalent spellings coincide, pruning leaves no empty branch. Part 2 (index vs cache under interleavings) is in the HttpIndexLts section below when present. Only `exact` + Print Assumptions. Part 2 (IndexLtsProofs.v): the index against the backing cache as an interleaving LTS (store = index step then cache step, removal notifications delivered asynchronously by identity, Invalidate = snapshot then deletes, Clear = two steps). Part 3 (IndexLocked.v): the repaired store (per-key stripe lock across its two steps, Clear excluding every store) as a locked LTS on top of IndexLts: the locks enforce hypothesis H, so the agreement theorems hold without it. *)
+Require Import KV.Base KV.HttpModel KV.HttpTrie KV.TrieProofs KV.IndexLts KV.IndexLtsProofs KV.IndexLocked.
 Open Scope Z_scope.
 
 (* addKey = map update at the normalized path *)
@@ -197,7 +197,82 @@ Theorem c15_closed_store_clean :
          closed s3 = true /\ nth_error (threads s3) i = Some {| t_pc := PIdle; t_script := r |}.
 Proof. exact IndexLtsProofs.closed_store_clean. Qed.
 
-(* finding F5: overlapping stores of ONE key end quiescent with the key cached and not indexed *)
+(* every state reachable by the repaired (locked) middleware satisfies H: no two stores of one key overlap, no store overlaps Clear, for every stripe function *)
+Theorem c15_locks_enforce_H :
+  forall (stripe : Z -> nat) (scripts : list (list op)) (s : lstate),
+         lreachable stripe (linit scripts) s -> H (base s).
+Proof. exact IndexLocked.locked_enforces_H. Qed.
+
+(* erasing the lock steps, every locked execution is an IndexLts execution *)
+Theorem c15_locked_refines :
+  forall (stripe : Z -> nat) (ls : list llabel) (s s' : lstate),
+         lexec stripe s ls = Some s' -> exec (base s) (erase ls) = Some (base s').
+Proof. exact IndexLocked.locked_refines. Qed.
+
+(* WITHOUT hypothesis H: at every quiescent state of the repaired middleware the index and the cache hold the same keys with the same identities *)
+Theorem c15_quiescent_agreement_locked :
+  forall (stripe : Z -> nat) (scripts : list (list op)) (s : lstate),
+         wf_scripts scripts ->
+         lreachable stripe (linit scripts) s ->
+         closed (base s) = false ->
+         quiescent (base s) -> forall k : Z, get k (idx (base s)) = get k (cache (base s)).
+Proof. exact IndexLocked.quiescent_agreement_locked. Qed.
+
+(* WITHOUT hypothesis H: Invalidate with no request in flight leaves no matching key cached *)
+Theorem c15_invalidate_complete_locked :
+  forall (stripe : Z -> nat) (scripts : list (list op)) (s0 : lstate) 
+           (i : nat) (ks : list Z) (rest : list op) (ls : list llabel) (s1 : lstate),
+         wf_scripts scripts ->
+         lreachable stripe (linit scripts) s0 ->
+         closed (base s0) = false ->
+         quiescent (base s0) ->
+         nth_error (threads (base s0)) i =
+         Some {| t_pc := PIdle; t_script := OInvalidate ks :: rest |} ->
+         (forall l : llabel,
+          In l ls ->
+          (exists j : tid, l = LLock j) \/
+          l = LBase LDeliver \/
+          (exists k : Z, l = LBase (LEvict k)) \/ (exists o : outcome, l = LBase (LT i o))) ->
+         lexec stripe s0 ls = Some s1 ->
+         nth_error (threads (base s1)) i = Some {| t_pc := PIdle; t_script := rest |} ->
+         let sd := deliver_all (base s1) in
+         (forall k : Z, memZ k ks = true -> get k (cache (base s1)) = None) /\
+         (forall k id : Z,
+          memZ k ks = false ->
+          get k (cache (base s0)) = Some id ->
+          ~ In (LBase (LEvict k)) ls -> get k (cache (base s1)) = Some id) /\
+         (forall k id : Z, get k (cache (base s1)) = Some id -> get k (cache (base s0)) = Some id) /\
+         cache sd = cache (base s1) /\
+         quiescent sd /\
+         (exists s' : lstate,
+            lreachable stripe (linit scripts) s' /\
+            base s' = sd /\
+            clearW s' = clearW s1 /\
+            clearR s' = clearR s1 /\ stripeOwner s' = stripeOwner s1 /\ lph s' = lph s1) /\
+         (forall k : Z, get k (idx sd) = get k (cache sd)) /\
+         (notes (base s1) = [] -> forall k : Z, get k (idx (base s1)) = get k (cache (base s1))).
+Proof. exact IndexLocked.invalidate_complete_locked. Qed.
+
+(* at a quiescent state no store or Clear lock is held *)
+Theorem c15_locks_released :
+  forall (stripe : Z -> nat) (scripts : list (list op)) (s : lstate),
+         lreachable stripe (linit scripts) s -> lquiescent s -> lock_free s.
+Proof. exact IndexLocked.locks_released. Qed.
+
+(* the lock order (Clear lock, then stripe) is deadlock free: while anything is unfinished some thread is enabled *)
+Theorem c15_locks_progress :
+  forall (stripe : Z -> nat) (scripts : list (list op)) (s : lstate),
+         lreachable stripe (linit scripts) s ->
+         (exists i : tid, unfinished s i \/ lph s i <> LIdle) -> exists j : tid, enabled stripe s j.
+Proof. exact IndexLocked.progress. Qed.
+
+(* the F5 schedule cannot be executed by the repaired middleware, wherever the lock steps are placed *)
+Theorem c15_f5_not_executable :
+  forall (stripe : Z -> nat) (ls : list llabel),
+         erase ls = f5_schedule -> lexec stripe (linit f5_scripts) ls = None.
+Proof. exact IndexLocked.f5_not_executable. Qed.
+
+(* finding F5 on the UNLOCKED model (the code before fix 1836925): overlapping stores of ONE key end quiescent with the key cached and not indexed *)
 Theorem c15_overlap_same_key_refuted :
   let s0 := init [[OStore 7 1]; [OStore 7 2]] in
          wf_scripts [[OStore 7 1]; [OStore 7 2]] /\
@@ -285,6 +360,13 @@ Print Assumptions c15_delivery_time_irrelevant.
 Print Assumptions c15_deliver_commutes.
 Print Assumptions c15_rejected_store_clean.
 Print Assumptions c15_closed_store_clean.
+Print Assumptions c15_locks_enforce_H.
+Print Assumptions c15_locked_refines.
+Print Assumptions c15_quiescent_agreement_locked.
+Print Assumptions c15_invalidate_complete_locked.
+Print Assumptions c15_locks_released.
+Print Assumptions c15_locks_progress.
+Print Assumptions c15_f5_not_executable.
 Print Assumptions c15_overlap_same_key_refuted.
 Print Assumptions c15_overlap_invalidate_blind.
 Print Assumptions c15_overlap_clear_refuted.
